@@ -176,7 +176,9 @@ func verifGenJSON(rng *rand.Rand, t reflect.Type, name string) string {
 			})
 		}
 		if t.Elem().Kind() == reflect.Float64 {
-			return verifGenList(rng, 2, func() string { return pick(rng, []string{"0", "1.5", "2"}) })
+			// exactly two items (the only float list, rpiCameraAWBGains, wants two); values that are not exact in float32
+			// and one beyond its range
+			return "[" + pick(rng, []string{"0", "1.5", "2", "1.9", "2.2", "0.1", "3.3333333333333335", "1.0e+39"}) + "," + pick(rng, []string{"0", "1.5", "2.2", "1.9", "0.30000000000000004"}) + "]"
 		}
 		if t.Elem().Kind() == reflect.Uint || t.Elem().Kind() == reflect.Int {
 			return verifGenList(rng, 2, func() string { return pick(rng, []string{"0", "1", "7"}) })
